@@ -416,6 +416,14 @@ impl<P> Default for SelectorBuilder<P> {
     }
 }
 
+#[cfg(feature = "verif")]
+impl<P> SelectorBuilder<P> {
+    /// The selected path (`false` = first, `true` = second component).
+    pub(crate) fn verif_path(&self) -> &[bool] {
+        &self.selection
+    }
+}
+
 impl<P: CoreExt> SelectorBuilder<P> {
     /// Select the first component '0' of the input pair.
     pub fn o(mut self) -> Self {
